@@ -307,9 +307,23 @@ pub fn run_c06(ctx: &Ctx, rep: &mut Report) {
         let mut rng = ctx.rng("c06", case);
         let apex = RName::simple(*rng.pick(&["z.", "a.z.", ".", "b.a.z."]));
         let class = *rng.pick(&[C_IN, C_IN, C_CH]);
-        let recs = gen_small_zone(&mut rng, &apex, class, false);
+        // a third of the zones are also offered records that must be rejected (wrong class, outside
+        // the zone, TTL mismatch): a rejected add must leave every lookup as it was
+        let with_rejected = rng.chance(1, 3);
+        let recs = gen_small_zone(&mut rng, &apex, class, with_rejected);
         let (rz, qz) = build(&apex, class, GluePolicy::Narrow, &recs);
         let mut names = nearby_names(&rz);
+        if with_rejected {
+            for (rec, res) in &rz.offered {
+                if res.is_err() && rec.owner.is_at_or_below(&apex) && !names.contains(&rec.owner) {
+                    names.push(rec.owner.clone());
+                    if let Some(p) = rec.owner.parent(1) {
+                        names.push(p);
+                    }
+                    names.push(rec.owner.child(b"a"));
+                }
+            }
+        }
         if ctx.is_miri() {
             rng.shuffle(&mut names);
             names.truncate(12);
